@@ -389,7 +389,7 @@ func primLeaves(o *gen.Tree) [][]string {
 	return out
 }
 
-var plantKinds = []string{"prim/prim", "container over prim", "prim over container", "container/container overlapping", "container/container disjoint"}
+var plantKinds = []string{"prim/prim", "container over prim", "prim over container", "container/container overlapping", "container/container disjoint", "nil over anything"}
 
 func otherPrim(t *rapid.T) *gen.Tree {
 	p := rapid.SampledFrom([]*gen.Tree{gen.Uint(1), gen.Uint(77), gen.Int(-5), gen.Str("dup"), gen.Str(""), gen.Bool(false), gen.Bool(true), gen.Float(2.5), gen.Uint(0)}).Draw(t, "dupval")
@@ -455,7 +455,7 @@ func genFlat(t *rapid.T, plant bool) FlatCase {
 			kind := rapid.IntRange(0, len(plantKinds)-1).Draw(t, "plant")
 			l := rapid.SampledFrom(leaves).Draw(t, "leaf")
 			cut := len(l)
-			if kind >= 2 {
+			if kind >= 2 && kind <= 4 {
 				if len(l) < 2 {
 					// no container above this leaf except the input itself
 					kind = rapid.IntRange(0, 1).Draw(t, "plant2")
@@ -484,6 +484,13 @@ func genFlat(t *rapid.T, plant bool) FlatCase {
 				k := rapid.SampledFrom([]string{"e", "f", "e.f", "e.0"}).Draw(t, "freshkey")
 				val = gen.Obj().Put(k, otherPrim(t))
 				val.R = drawContRepr(t)
+			case 5:
+				// a nil value defines nothing, whatever the path holds otherwise
+				val = gen.Nil()
+				val.R = rapid.IntRange(0, 1).Draw(t, "nilrepr")
+				if rapid.Bool().Draw(t, "nil-above") && len(l) >= 2 {
+					cut = rapid.IntRange(1, len(l)-1).Draw(t, "cut")
+				}
 			}
 			c.Planted = plantKinds[kind]
 			p := l[:cut]
